@@ -37,8 +37,16 @@ def setup():
         return 1
     b = core.coq_build(all_generators())
     print(b["log"][-4000:])
-    print("build ok=%s wall=%.1fs failed=%s gen_errors=%s" % (b["ok"], b["wall_s"], b["failed"], b["gen_errors"]))
-    return 0 if b["ok"] else 1
+    print("build ok=%s wall=%.1fs failed=%s gen_errors=%s not_extracted=%s" % (b["ok"], b["wall_s"], b["failed"], b["gen_errors"],
+                                                                                b.get("not_extracted")))
+    if b.get("fatal") or not os.path.exists(core.DRIVER):
+        print("SETUP FAILED: %s" % b.get("fatal", "no extracted driver"))
+        return 1
+    if not b["ok"]:
+        # the toolchain works; files that do not compile against the tree as it is now are reported by the checks whose
+        # theorems depend on them (proof violation), not by the setup
+        print("SETUP WARNING: some files do not compile against the current tree (see above); the checks depending on them will say so")
+    return 0
 
 
 def main():
